@@ -2015,6 +2015,203 @@ fn check_reference_constants(run: &Run) {
 // main
 // =====================================================================
 
+// ------------------------------------------------------------------ Part C: production parameters behind a permissive cycle verifier
+
+/// Cycle verifier that takes any cycle: Cuckaroo29 / Cuckatoo31+ cycles cannot be searched for here. `Chain::init` takes
+/// the verifier as a parameter; every other header rule runs for real under `Options::NONE` on Testnet / Mainnet
+/// parameters - height, version, time, the difficulty the proof hash reaches, total difficulty, secondary scaling, the
+/// header MMR root - and the window the node judges by is the one it reads back from its own header store.
+fn any_cycle(_: &BlockHeader) -> Result<(), pow::Error> {
+	Ok(())
+}
+
+/// A header on `prev` claiming (difficulty, scaling) with a proof of `edge_bits` whose hash reaches that difficulty.
+fn part_c_header(chain: &Chain, prev: &BlockHeader, ts_delta: i64, diff: u64, scaling: u32, edge_bits: u8, salt: u64, reuse: Option<&pow::Proof>) -> Option<BlockHeader> {
+	use grin_core::core::pmmr::insertion_to_pmmr_index;
+	let height = prev.height + 1;
+	let mut header = BlockHeader::default();
+	header.version = consensus::header_version(height);
+	header.height = height;
+	header.timestamp = prev.timestamp + Duration::seconds(ts_delta);
+	header.prev_hash = prev.hash();
+	header.output_mmr_size = insertion_to_pmmr_index(prev.output_mmr_count() + 1);
+	header.kernel_mmr_size = insertion_to_pmmr_index(prev.kernel_mmr_count() + 1);
+	header.pow.total_difficulty = prev.total_difficulty() + Difficulty::from_num(diff);
+	header.pow.secondary_scaling = scaling;
+	if chain.set_prev_root_only(&mut header).is_err() {
+		return None;
+	}
+	if let Some(pr) = reuse {
+		// the proof of work (and with it the header's hash) covers the nonces only
+		header.pow.proof = pr.clone();
+		return if header.pow.to_difficulty(height).to_num() >= diff { Some(header) } else { None };
+	}
+	let n = global::proofsize() as u64;
+	// nonce sets of different (height, salt) must not coincide (the header hash covers the nonces only, and a header whose
+	// hash is already stored is answered as known): 42 fixed pseudo-random values per (height, salt), shifted by the try
+	// counter, each kept inside the graph's edge range (a nonce beyond it cannot be encoded, hence cannot arrive)
+	let mask: u64 = if edge_bits >= 63 { u64::MAX >> 1 } else { (1u64 << edge_bits) - 1 };
+	let mut seedp = Prng::new(0xC04C_0000 ^ (height << 8) ^ salt);
+	let fixed: Vec<u64> = (0..n).map(|_| seedp.next_u64()).collect();
+	for k in 0..40_000_000u64 {
+		header.pow.proof = pow::Proof {
+			edge_bits,
+			nonces: fixed.iter().map(|x| x.wrapping_add(k) & mask).collect(),
+		};
+		if header.pow.to_difficulty(height).to_num() >= diff {
+			return Some(header);
+		}
+	}
+	None
+}
+
+fn part_c_chain(run: &Run, net: Net, n_headers: u64, sc: &Scratch, seed: u64) {
+	global::set_local_chain_type(chain_type(net));
+	let genesis = match net {
+		Net::Test => grin_core::genesis::genesis_test(),
+		_ => grin_core::genesis::genesis_main(),
+	};
+	let dir = sc.sub(&format!("partC-{}", net.name()));
+	let chain = match Chain::init(dir.clone(), std::sync::Arc::new(grin_chain::types::NoopAdapter {}), genesis.clone(), any_cycle, false, None) {
+		Ok(c) => c,
+		Err(e) => {
+			run.inconclusive(&format!("part C: Chain::init on {}: {:?}", net.name(), e));
+			return;
+		}
+	};
+	let mut p = Prng::new(seed ^ 0xC04C ^ (net as u64) << 8);
+	let e_of = |h: &BlockHeader, prev_total: u64| E {
+		ts: h.timestamp.timestamp() as u64,
+		diff: h.total_difficulty().to_num() - prev_total,
+		scal: h.pow.secondary_scaling,
+		sec: h.pow.is_secondary(),
+	};
+	let mut window: Vec<E> = vec![e_of(&genesis.header, 0)];
+	let mut prev = genesis.header.clone();
+	for height in 1..=n_headers {
+		let replay = |what: &str, detail: Value| json!({"part": "C", "chain_type": net.name(), "height": height, "what": what,
+			"window_newest_first_[ts,diff,scaling,is_secondary]": window_json(&window), "detail": detail});
+		let (diff, scaling) = match refdiff::next(net, height, &window) {
+			Ref::Defined(ex) if ex.diff <= u64::MAX as u128 && ex.scaling <= u32::MAX as u128 => (ex.diff as u64, ex.scaling as u32),
+			_ => {
+				run.inconclusive(&format!("part C: reference undefined at height {} on {}", height, net.name()));
+				return;
+			}
+		};
+		// what the node itself derives from its header store must be the reference (it is what it judges headers by)
+		let from_store = consensus::next_difficulty(height, grin_chain::store::DifficultyIter::from(prev.hash(), chain.store()));
+		run.count("partC_store_windows_compared", 1);
+		if from_store.difficulty.to_num() != diff || from_store.secondary_scaling != scaling {
+			run.violation(
+				&format!("partC;chain={};clause=retarget_over_the_stored_window;era=v{}", net.name(), refdiff::version(net, height)),
+				&format!("next_difficulty over the node's stored headers gives ({}, {}), the reference over the headers as accepted ({}, {})",
+					from_store.difficulty.to_num(), from_store.secondary_scaling, diff, scaling),
+				replay("store_window", json!({})),
+			);
+			return;
+		}
+		// Mainnet starts at a difficulty a 31-bit graph weight reaches once in millions of hashes: larger graphs there
+		// (the weight grows with the graph), and only every third header secondary
+		let edge_bits = match net {
+			Net::Test => *p.pick(&[29u8, 29, 31, 32]),
+			_ => {
+				if height % 3 == 1 {
+					29
+				} else {
+					*p.pick(&[40u8, 48, 63])
+				}
+			}
+		};
+		let ts_delta = *p.pick(&[1i64, 30, 60, 60, 61, 600]);
+		// the scaling of the same window with every header taken for a primary one
+		let all_primary: Vec<E> = window.iter().map(|e| E { sec: false, ..*e }).collect();
+		let mut mutants: Vec<(&'static str, u64, u32)> = vec![
+			("secondary_scaling_plus_1", diff, scaling + 1),
+			("total_difficulty_plus_1", diff + 1, scaling),
+		];
+		if scaling > 1 {
+			mutants.push(("secondary_scaling_minus_1", diff, scaling - 1));
+		}
+		if diff > 1 {
+			mutants.push(("total_difficulty_minus_1", diff - 1, scaling));
+		}
+		if let Ref::Defined(ex) = refdiff::next(net, height, &all_primary) {
+			if ex.scaling as u32 != scaling {
+				mutants.push(("scaling_of_the_window_with_all_headers_primary", diff, ex.scaling as u32));
+				run.count("partC_windows_whose_scaling_depends_on_the_secondary_flags", 1);
+			}
+		}
+		// one proof for all mutants of this height, mined for the hardest of their claims (highest difficulty, lowest scaling)
+		let hardest = part_c_header(&chain, &prev, ts_delta, diff + 1, scaling.saturating_sub(1).max(1), edge_bits, 1, None);
+		let shared = match &hardest {
+			Some(h) => h.pow.proof.clone(),
+			None => {
+				run.inconclusive(&format!("part C: no proof hash reaching difficulty {} at height {} on {}", diff + 1, height, net.name()));
+				return;
+			}
+		};
+		for (k, (name, d, sc_)) in mutants.into_iter().enumerate() {
+			let m = match part_c_header(&chain, &prev, ts_delta, d, sc_, edge_bits, 1, Some(&shared)) {
+				Some(m) => m,
+				None => {
+					run.count("partC_headers_not_mined", 1);
+					continue;
+				}
+			};
+			let via_sync = (height + k as u64) % 2 == 0;
+			let r: Result<(), grin_chain::Error> = if via_sync {
+				let sh: Tip = chain.header_head().expect("header_head");
+				chain.sync_block_headers(&[m.clone()], sh, Options::NONE).map(|_| ())
+			} else {
+				chain.process_block_header(&m, Options::NONE)
+			};
+			let entry = if via_sync { "sync_block_headers" } else { "process_block_header" };
+			run.eval(&format!("partC;{};{};{};eb={};era=v{}", net.name(), name, entry, edge_bits, refdiff::version(net, height)), true);
+			let hh = chain.header_head().map(|t| t.last_block_h).ok();
+			if r.is_ok() || hh != Some(prev.hash()) {
+				run.violation(
+					&format!("partC;chain={};field={};entry={};event=accepted", net.name(), name, entry),
+					&format!("header at height {} claiming (difficulty {}, secondary scaling {}) where the network values are ({}, {}) was accepted ({:?}), header_head {:?}",
+						height, d, sc_, diff, scaling, r.is_ok(), hh),
+					replay(name, json!({"edge_bits": edge_bits})),
+				);
+				return;
+			}
+			run.count(&format!("partC_rejected[{}]", name), 1);
+		}
+		let honest = match part_c_header(&chain, &prev, ts_delta, diff, scaling, edge_bits, 9, None) {
+			Some(m) => m,
+			None => {
+				run.inconclusive(&format!("part C: no proof hash reaching difficulty {} at height {} on {}", diff, height, net.name()));
+				return;
+			}
+		};
+		let via_sync = height % 3 == 0;
+		let r: Result<(), grin_chain::Error> = if via_sync {
+			let sh: Tip = chain.header_head().expect("header_head");
+			chain.sync_block_headers(&[honest.clone()], sh, Options::NONE).map(|_| ())
+		} else {
+			chain.process_block_header(&honest, Options::NONE)
+		};
+		run.eval(&format!("partC;{};honest;eb={};era=v{}", net.name(), edge_bits, refdiff::version(net, height)), true);
+		if r.is_err() || chain.header_head().map(|t| t.last_block_h).ok() != Some(honest.hash()) {
+			run.violation(
+				&format!("partC;chain={};field=none;event=honest_header_refused", net.name()),
+				&format!("header at height {} carrying the network difficulty {} and secondary scaling {} (edge bits {}) was refused: {:?}", height, diff, scaling, edge_bits, r.err().map(|e| err_variant(&e))),
+				replay("honest", json!({"edge_bits": edge_bits})),
+			);
+			return;
+		}
+		run.count("partC_honest_accepted", 1);
+		if honest.pow.is_secondary() {
+			run.count("partC_honest_accepted_secondary", 1);
+		}
+		window.insert(0, e_of(&honest, prev.total_difficulty().to_num()));
+		prev = honest;
+	}
+	run.count("partC_chains_completed", 1);
+}
+
 fn main() {
 	let run = Run::from_env("C04", "exploration");
 	let san = run.args.iter().any(|a| a == "--san");
@@ -2043,11 +2240,16 @@ fn main() {
 		 (length 0..120, 14 timestamp classes, 16 difficulty classes, secondary flag/scaling classes): no panic, deterministic, >= era \
 		 minimum, inside the damp/clamp bounds, equal to the u128 reference — judged on windows whose difficulties and timestamps can \
 		 belong to a header chain (non-negative spans, 64-bit cumulative difficulty); other windows are observed only. Signature = \
-		 (chain type, algorithm, length class, timestamp class, difficulty class, secondary class, outcome).",
+		 (chain type, algorithm, length class, timestamp class, difficulty class, secondary class, outcome). \
+		 Part C: Testnet and Mainnet genesis, Chain::init with a cycle verifier that accepts any cycle, 10 (quick) / 70 (thorough) \
+		 headers with edge bits 29 (secondary) / 31 / 32 and varying block times, each carrying the (difficulty, secondary scaling) of the \
+		 u128 reference over the accepted headers and a proof whose hash reaches that difficulty: accepted through process_block_header / \
+		 sync_block_headers; the same header with scaling +-1, difficulty +-1 or the scaling of the window with all headers taken as primary: \
+		 refused; next_difficulty over the node's own header store equals the reference.",
 	);
 	run.assume("a window handed to next_difficulty by header validation consists of already validated headers: timestamps strictly increase and the difficulties sum to less than 2^64 (total_difficulty is a u64)");
 	run.assume("blake2b, siphash and the Cuckatoo verifier/solver are trusted (C05 covers the verifier)");
-	run.assume("mainnet/testnet header ACCEPTANCE is not exercised (Cuckatoo31+/Cuckaroo29 cannot be mined here); their retarget, schedule and minima are covered by part B");
+	run.assume("mainnet/testnet header acceptance is exercised behind a cycle verifier that accepts any cycle (Cuckatoo31+/Cuckaroo29 cannot be mined here; part C): every rule except the cycle itself runs for real; the cycle rule is part A's (AutomatedTesting) and C05's");
 
 	// ------------------------------------------------------------ Part A
 	// process_block serialises on the process-global secp mutex, so the chains are
@@ -2058,6 +2260,30 @@ fn main() {
 		run.spawn_workers(16, &[], run.tier.pick(60, 360));
 	}
 	let a_wall = t_start.elapsed().as_secs_f64();
+
+	// ------------------------------------------------------------ Part C
+	if !san {
+		let sc_c = Scratch::new("c04c");
+		let n_c: u64 = run.tier.pick(10, 70);
+		std::thread::scope(|s| {
+			for net in [Net::Test, Net::Main] {
+				let (run, sc_c) = (&run, &sc_c);
+				s.spawn(move || {
+					if let Err(pn) = monitor::catch(|| part_c_chain(run, net, n_c, sc_c, run.seed)) {
+						run.violation(&format!("partC;chain={};event=panic@{}", net.name(), pn.location), &pn.message, json!({"part": "C"}));
+					}
+				});
+			}
+		});
+		drop(sc_c);
+		run.require("partC chains on production parameters completed", run.counter("partC_chains_completed"), 2);
+		run.require("partC honest headers accepted", run.counter("partC_honest_accepted"), 2 * n_c);
+		run.require("partC honest secondary (edge bits 29) headers accepted", run.counter("partC_honest_accepted_secondary"), 4);
+		run.require("partC mutants whose shared proof did not reach their claim must be 0", if run.counter("partC_headers_not_mined") == 0 { 1 } else { 0 }, 1);
+		run.require("partC wrong secondary scaling refused", run.counter("partC_rejected[secondary_scaling_plus_1]"), n_c);
+		run.require("partC wrong total difficulty refused", run.counter("partC_rejected[total_difficulty_plus_1]"), n_c);
+		run.require("partC windows whose scaling depends on which headers are secondary", run.counter("partC_windows_whose_scaling_depends_on_the_secondary_flags"), 4);
+	}
 
 	// ------------------------------------------------------------ Part B
 	check_reference_constants(&run);
